@@ -135,6 +135,45 @@ theorem fl_path_found (enc : Nat → List Nat) (mts : Nat) (cs partialIdx : Bool
   rw [hterms]
   exact fl_found_of_mem pf maxKey _ base dict hmem
 
+/-! ## the parser step: the leaf `parseFulltextSearchFilter` builds for `field:word` carries that very term -/
+
+/-- text field: a composite token made of word runes becomes the single leaf `field:[term of the word]` -/
+theorem fl_parser_leaf_text (dp cs : Bool) (field : List Nat) (toks rest : List LTok) (ws : List Rn)
+    (hc : compositeToken toks = .ok (ws, rest)) (hne : ws ≠ []) (hword : ∀ r, r ∈ ws → isWordRune r = true) :
+    fulltextFilter dp field .text cs toks = .ok (.leaf (.lit field [⟨false, lowerIf cs ws⟩]), rest) := by
+  unfold fulltextFilter
+  rw [hc]
+  simp [PRes.bind, seqqlText_word cs ws hne hword, buildAndTree]
+
+/-- keyword and path fields: a composite token without a wildcard rune becomes the leaf `field:[term of the value]` -/
+theorem fl_parser_leaf_keyword (dp cs : Bool) (field : List Nat) (t : FT) (ht : t = .keyword ∨ t = .path)
+    (toks rest : List LTok) (vs : List Rn)
+    (hc : compositeToken toks = .ok (vs, rest)) (hne : vs ≠ []) (hnw : ∀ r, r ∈ vs → r.cp ≠ wildcardCp) :
+    fulltextFilter dp field t cs toks = .ok (.leaf (.lit field [⟨false, lowerIf cs vs⟩]), rest) := by
+  unfold fulltextFilter
+  rw [hc]
+  rcases ht with rfl | rfl <;> simp [PRes.bind, seqqlKeyword_plain cs vs hne hnw]
+
+/-- **query text to token search, text fields**: when the lexer hands the parser the word as one composite token, the
+leaf `parseFulltextSearchFilter` builds for the text field is `field:terms`, and the searcher built from those terms
+finds the TID of the token stored for the word (and only byte-equal tokens) -/
+theorem fl_text_query_found (enc : Nat → List Nat) (c : TokCfg) (fieldMax : Nat) (value w : List TRn)
+    (hidx : ¬ (blen value > effMax fieldMax c.maxFieldValueLength ∧ c.partialIdx = false)) (hne : blen value ≠ 0)
+    (hw : w ∈ textWords [] (truncRunes value (min (blen value) (effMax fieldMax c.maxFieldValueLength))))
+    (hwne : w ≠ []) (hlen : blen w ≤ c.maxTokenSize) (hwf : ∀ r, r ∈ w → SV.Tok.WF enc r)
+    (pf : Bytes → Option Int) (maxKey : Int) (base : Nat) (dict : List Bytes)
+    (hdict : ∀ t, t ∈ textTokens c fieldMax value → t ∈ dict)
+    (dp : Bool) (field : List Nat) (toks rest : List LTok) (hc : compositeToken toks = .ok (w.map (·.r), rest)) :
+    ∃ terms r i, fulltextFilter dp field .text c.cs toks = .ok (.leaf (.lit field terms), rest) ∧
+      search pf maxKey (.literal (terms.map (toPat enc))) ⟨base, dict, false⟩ = some r ∧
+      i < dict.length ∧ dict[i]? = some (lowerIfCI c.cs c.norm w) ∧ base + i ∈ r ∧
+      ∀ tid, tid ∈ r → dict.getD (tid - base) [] = lowerIfCI c.cs c.norm w := by
+  obtain ⟨terms, r, i, hq, hrest⟩ := fl_text_word_found enc c fieldMax value w hidx hne hw hwne hlen hwf pf maxKey base dict hdict
+  refine ⟨terms, r, i, ?_, hrest⟩
+  unfold fulltextFilter
+  rw [hc]
+  simp [PRes.bind, hq, buildAndTree]
+
 /-- non-vacuity of `fl_search_single`: token `ab` is entry 1 of a three-token dictionary based at TID 5 -/
 example : ∃ r, search (fun _ => none) 100 (.literal [.text [97, 98]]) ⟨5, [[97], [97, 98], [99]], false⟩ = some r ∧
     6 ∈ r ∧ 5 ∉ r := by
